@@ -5,8 +5,10 @@ import functools
 
 import numpy as np
 
+from hypothesis import strategies as st
+
 from ..core import Clause, Violation, Discard
-from .. import gens
+from .. import gens, refmodel
 from ..trace import Trace
 
 RULE = ("Cases: the full finite grid variant in {sift, mask_sift(zc), mask_sift(list), ensemble_sift, complete_ensemble_sift, "
@@ -18,7 +20,10 @@ RULE = ("Cases: the full finite grid variant in {sift, mask_sift(zc), mask_sift(
         "envelope / extrema options; every interp_envelope / get_padded_extrema call made inside a get_next_imf received the "
         "supplied interp_method / pad width / refinement / pad dicts; at least one record of each stage exists; with "
         "nprocesses > 1 records come from other pids; and the four delivery routes give np.array_equal outputs (RNG "
-        "re-seeded). Non-trivial: at least one supplied option differs from its default.")
+        "re-seeded); (reference) Hypothesis signals (incl. mid-record bursts whose extrema need several padding passes) x "
+        "option sets incl. custom np.pad magnitude options x route: the first IMFs of the classic / second-layer sift must "
+        "equal (1e-9) the pipeline assembled from the independent reference stages run with the same options. "
+        "Non-trivial: at least one supplied option differs from its default.")
 ASSUMPTIONS = ["what a stage *receives* is observed through the EMD_VERIF_TRACE hook; that a stage *uses* what it receives "
                "is decided by C04 / C05"]
 
@@ -190,7 +195,82 @@ def oracle(case, rec):
     return exp_imf != norm_imf(None) or exp_interp != 'splrep' or exp_ext != norm_extrema(None)
 
 
+# ----------------------------------------------------------------------------
+# the options must also *govern* the stage: compare with a pipeline assembled from the independent
+# reference stages (vp.refmodel) run with the same options
+
+MAG = [None, {'mode': 'median', 'stat_length': 3}, {'mode': 'reflect'}, {'mode': 'mean', 'stat_length': 2}, {'mode': 'edge'},
+       {'mode': 'symmetric'}]
+
+
+@st.composite
+def ref_case(draw):
+    fam = draw(st.sampled_from(['burst', 'burst', 'tones', 'noise', 'levels', 'walk']))
+    sig = {'family': fam, 'n': draw(st.sampled_from([24, 40, 64, 100, 160])), 'k': draw(st.integers(0, 2**32 - 1)),
+           'p1': draw(st.floats(0, 1)), 'p2': draw(st.floats(0, 1))}
+    xo = {'pad_width': draw(st.integers(1, 4)), 'parabolic_extrema': draw(st.booleans())}
+    m = draw(st.sampled_from(MAG))
+    if m is not None:
+        xo['mag_pad_opts'] = m
+    return {'sig': sig, 'imf': draw(st.integers(0, len(IMF_OPTS) - 1)), 'interp': draw(st.integers(0, len(INTERP) - 1)),
+            'xo': xo, 'route': draw(st.sampled_from(ROUTES)), 'variant': draw(st.sampled_from(['sift', 'sift', 'sift_second_layer']))}
+
+
+def oracle_reference(case, rec):
+    import emd
+    x = gens.sig_of(case['sig'])
+    imf_opts = IMF_OPTS[case['imf']]
+    eo = {'interp_method': INTERP[case['interp']]}
+    xo = case['xo']
+    v = case['variant']
+    ia = np.abs(x)[:, None] + 0.1 if v == 'sift_second_layer' else None
+    try:
+        out = call_variant(emd, v, case['route'], x, imf_opts, eo, xo, 1, ia)
+    except emd.support.EMDSiftCovergeError:
+        raise Discard('convergence error')
+    except Exception as e:
+        try:
+            refmodel.ref_extract(x if ia is None else ia[:, 0], envelope_opts=eo, extrema_opts=xo, **imf_opts)
+        except Exception:
+            raise Discard('the option set is rejected by numpy/scipy in the reference as well')
+        raise Violation('C06/reference/%s/raises/%s' % (v, type(e).__name__), repr(e))
+    out = np.asarray(out)
+    got = out[:, 0, :] if v == 'sift_second_layer' else out
+    sig = x if ia is None else ia[:, 0]
+    cap = 2 if v == 'sift_second_layer' else 3
+    scale = np.abs(sig).max() or 1.0
+    res = sig.copy()
+    cols = 0
+    for j in range(cap):
+        try:
+            r = refmodel.ref_extract(res, envelope_opts=eo, extrema_opts=xo, hard_cap=1200, ignore_input_ties=(j == 0), **imf_opts)
+        except Exception:
+            raise Discard('the option set is rejected by numpy/scipy in the reference')
+        if r.kind == 'error':
+            raise Discard('reference does not converge')
+        if j >= got.shape[1]:
+            raise Violation('C06/reference/%s/fewer-imfs-than-the-reference-pipeline' % v, '')
+        dev = np.abs(got[:, j] - r.imf).max() / scale
+        if dev > 1e-9:
+            if r.note or r.margin_stop <= 1e-6 or r.margin_tie <= 1e-7 or r.margin_par <= 1e-4:
+                raise Discard('mismatch on an ill-conditioned extraction (stop metric at threshold, near-tie, or near-flat '
+                              'extremum under parabolic refinement)')
+            custom = 'custom-mag-pad' if 'mag_pad_opts' in xo else 'default-pad'
+            raise Violation('C06/reference/%s/output-differs-from-reference-pipeline/%s' % (v, custom),
+                            'IMF %d rel dev %.3g with imf_opts=%r envelope_opts=%r extrema_opts=%r via %s' % (j, dev, imf_opts, eo, xo, case['route']))
+        cols += 1
+        res = sig - got[:, :j + 1].sum(axis=1)
+        if not r.flag or np.abs(got[:, j]).sum() < 1e-8:
+            break
+    rec.cls('variant=' + v)
+    rec.cls('route=' + case['route'])
+    rec.cls('mag_pad=' + (xo.get('mag_pad_opts') or {'mode': 'default'})['mode'])
+    return cols >= 1 and ('mag_pad_opts' in xo or xo['pad_width'] != 2 or xo['parabolic_extrema'] or case['interp'] != 0)
+
+
 CLAUSES = [
+    Clause('C06.reference', oracle_reference, strategy=ref_case(), quick=1200, thorough=30000, shards=(16, 16),
+           nt_rule='>= 1 IMF compared under a non-default envelope / extrema option'),
     Clause('C06.grid', oracle, enumerate=enum_grid, quick=None, thorough=None, shards=(16, 16), exhaustive=True,
            nt_rule='some supplied option differs from its default'),
 ]
